@@ -112,7 +112,7 @@ func runC20(c *Ctx) {
 		ok := len(cs) == 1 && dirOf(cs[0]) == "descending"
 		c.R.Check("A-order", "History.RollbackTo|heights descending", ok, c.pos(f.Pos()), fmt.Sprintf("%d per-height rollback call(s), descending: %v", len(cs), ok))
 		// temp changes first
-		tmp := fieldCallSites(f, "rollback")
+		tmp := tempRollbackSites(f)
 		okOrder := len(tmp) == 1 && len(cs) == 1
 		if okOrder {
 			ra := ssau.ReachAfter(f, cs[0], nil)
@@ -160,7 +160,7 @@ func runC20(c *Ctx) {
 		}
 	}
 	if f := c.fn(u, "History", "Append"); f != nil {
-		tmp := fieldCallSites(f, "rollback")
+		tmp := tempRollbackSites(f)
 		app := ssau.CallsIn(f, callPred(R{u, "HeightChanges", "append"}))
 		ok := len(tmp) == 1 && len(app) == 1
 		if ok {
@@ -181,4 +181,37 @@ func (c *Ctx) mustCallAllStores(rule, key string, fn *ssa.Function, owner, field
 		}
 	}
 	c.R.Check(rule, key, n >= 1, c.pos(fn.Pos()), fmt.Sprintf("%d store(s) to %s.%s", n, owner, field))
+}
+
+// tempRollbackSites: the places in f where the pending temporary changes are rolled back: a direct call of the
+// rollback closure of a tempChanges element, or a call of a same-package helper that does it.
+func tempRollbackSites(f *ssa.Function) []ssa.Instruction {
+	var out []ssa.Instruction
+	for _, cl := range fieldCallSites(f, "rollback") {
+		out = append(out, cl)
+	}
+	for _, b := range f.Blocks {
+		for _, in := range b.Instrs {
+			cl, ok := in.(*ssa.Call)
+			if !ok {
+				continue
+			}
+			h := cl.Call.StaticCallee()
+			if h == nil || h.Pkg != f.Pkg || h == f || len(fieldCallSites(h, "rollback")) == 0 {
+				continue
+			}
+			touchesTemp := false
+			for _, hb := range h.Blocks {
+				for _, hi := range hb.Instrs {
+					if fa, ok := hi.(*ssa.FieldAddr); ok && ssau.IsFieldOf(fa, "History", "tempChanges") {
+						touchesTemp = true
+					}
+				}
+			}
+			if touchesTemp {
+				out = append(out, cl)
+			}
+		}
+	}
+	return out
 }
